@@ -215,6 +215,7 @@ func (h *ValueReader) ReadObject(data []byte) (val map[string]interface{}, p int
 	h.objVal = make(map[string]interface{}, mapSize)
 	p, err = HandleObjectValues(data[p:], h, &h.buf)
 	if err != nil {
+		h.lastMapSize = len(h.objVal)
 		return nil, p, err
 	}
 	valLen := len(h.objVal)
@@ -271,6 +272,7 @@ func (h *ValueReader) ReadArray(data []byte) (val []interface{}, p int, err erro
 	h.arrVal = make([]interface{}, 0, sliceSize)
 	p, err = HandleArrayValues(data, h, &h.buf)
 	if err != nil {
+		h.lastSliceSize = len(h.arrVal)
 		return nil, p, err
 	}
 
